@@ -9,9 +9,11 @@ and TOP-n through data nodes that are sent a limit) -> every state of the four T
 step on the real code (harness c10) at three layers: the aggregation package (int64 and float64), the row plans exactly as
 the data node / the coordinator build them (Analyze / DistributedAnalyze; only the storage scan and the transport are
 stand-ins), and the columnar twins (BatchAggregation All/Map/Reduce, frames, BatchTop)."""
+import atexit
 import concurrent.futures as cf
 import copy
 import json
+import multiprocessing
 import os
 import re
 import sys
@@ -34,8 +36,8 @@ BASE = dict(Family='"agg"', Vals='-3..3', Shards='{0, 1, 2}', K1='<<"a">>', K2='
 AGG_INV = ['RefMeanValid', 'DirectEqualsReference', 'PartitionLaw', 'ReplicasCountOnce', 'GroupsAreKeyTuples', 'GroupedLaw']
 SCALAR_INV = AGG_INV[:4]  # one group only: the grouped laws coincide with the scalar ones
 ORD_INV = ['GroupMethodLaw', 'PageLaw']
-# family "ord": rankings (TOP/BOTTOM m) executed per state and client page: one seeded choice (quick), all (thorough)
-ORD_RANKS = 1 if c.quick else 0
+# family "ord": rankings (TOP/BOTTOM m, of the 2 x MaxN the spec lists) executed per state and client page, seeded choice
+ORD_RANKS = 1 if c.quick else 0  # 0: all
 # adversarial concretisation of the group-key tokens: ("a","bc") and ("ab","c") concatenate to the same bytes
 K1, K2 = ['a', 'ab'], ['c', 'bc']
 
@@ -111,6 +113,7 @@ if c.replay:
     else:
         f = c.write_behaviours('replay', [obj['behaviour']])
         res = c.run_harness(binp, obj['args'] + ['-in', f], env={'VERIF_SEED': str(obj['seed'])})
+        os.remove(f)
     seen = set()
     for v in res['violations']:
         if v['signature'] not in seen:
@@ -135,10 +138,14 @@ else:
         'scalar': ('agg', dict(Vals='-3..3', Shards='{0, 1, 2}', MaxRows=5), SCALAR_INV),
         'group': ('agg', dict(Vals='{-3, -1, 0, 2}', Shards='{0, 1}', K1=tla_strs(K1), K2=tla_strs(K2), MaxRows=4, Grouped='TRUE', MaxN=3), AGG_INV),
         'top': ('top', dict(Family='"top"', TopVals='-3..3', MaxItems=5, MaxN=3), ['TopNLaw']),
-        'ord': ('ord', dict(Family='"ord"', Vals='{-2, 3}', Shards='{0, 1}', K1=tla_strs(K1), K2=tla_strs(K2), MaxRows=4, MaxN=2,
-                            Pages='{<<1, 0>>, <<1, 1>>, <<2, 0>>, <<2, 1>>}'), ORD_INV),
+        # every arrival order of <= 3 points over 3 values, and of <= 4 points of one value (two nodes that both hold more
+        # groups than the page, in different first-seen orders; the aggregates then differ by the counts)
+        'ord': ('ord', dict(Family='"ord"', Vals='{-2, 0, 3}', Shards='{0, 1}', K1=tla_strs(K1), K2=tla_strs(K2), MaxRows=3, MaxN=2,
+                            Pages='{<<1, 0>>, <<1, 1>>, <<2, 0>>}'), ORD_INV),
+        'ord4': ('ord', dict(Family='"ord"', Vals='{3}', Shards='{0, 1}', K1=tla_strs(K1), K2=tla_strs(K2), MaxRows=4, MaxN=2,
+                             Pages='{<<1, 0>>, <<1, 1>>, <<2, 0>>, <<2, 1>>}'), ORD_INV),
     }
-FAMILIES = ('scalar', 'group', 'top', 'ord')
+FAMILIES = tuple(fam)
 
 
 # several TLC instances run side by side: a bounded heap and few collector threads each (the default - a quarter of
@@ -155,23 +162,47 @@ def harness(args, timeout=1500):
     return c.run_harness(binp, args, timeout=timeout)
 
 
+NONTRIVIAL = lambda st: len({s['last'].get('s') for s in st[1:]}) >= 2 and len({s['last'].get('v') for s in st[1:]}) >= 2  # noqa: E731
+SAMPLE_AT = {'scalar': 2, 'group': 3, 'top': 2, 'ord': 3, 'ord4': 3}  # the sample behaviour of a family is number len // SAMPLE_AT
+
+
 def explore(name):
-    """TLC on one family, then every state of its graph replayed on the real code."""
+    """TLC on one family, then every state of its graph replayed on the real code.  Runs in a worker PROCESS (parsing
+    a state graph is pure python: side by side in threads the four parses would take turns); only summaries travel
+    back, the behaviours stay in their file (one per line, line number = behaviour id)."""
     mode, consts, invs = fam[name]
     mod, files, d = model(name.capitalize(), consts, invs)
     r = tlc.run(mod + '.tla', mod + '.cfg', tag='c10' + name, files=files, dump=True, workers=5, timeout=1500, **TLC_JVM)
+    out = dict(name=name, d=d, tlc=dict(distinct=r.distinct, generated=r.generated, depth=r.depth, wall_s=round(r.wall, 1)), err=None)
     if r.violated or r.error or r.timed_out or not r.ok:
-        return name, r, d, None, None, 'TLC on Aggregation.tla (%s): violated=%s error=%s timeout=%s\n%s' % (name, r.violated, r.error, r.timed_out, r.output[-1500:])
+        out['err'] = 'TLC on Aggregation.tla (%s): violated=%s error=%s timeout=%s\n%s' % (name, r.violated, r.error, r.timed_out, r.output[-1500:])
+        return out
     nodes, edges, inits = tlc.graph(r)
     tlc.cleanup(r)
     b = tree_behaviours(nodes, edges, inits)
     if b is None or len(nodes) != r.distinct:
-        return name, r, d, None, None, 'state graph of family %s is not the expected tree (%d nodes, %d distinct)' % (name, len(nodes), r.distinct)
+        out['err'] = 'state graph of family %s is not the expected tree (%d nodes, %d distinct)' % (name, len(nodes), r.distinct)
+        return out
     c.log('TLC Aggregation[%s]: %d distinct states, invariants hold (%.1fs) -> %d behaviours' % (name, r.distinct, r.wall, len(b)))
     f = c.write_behaviours(name, b)
-    res = harness(harness_args(mode, d) + ['-in', f])
-    os.remove(f)
-    return name, r, d, b, res, None
+    cand = [i for i, x in enumerate(b) if len(x) >= 3 and 'obs' in x[-1]]
+    out.update(file=f, behaviours=len(b), sample=b[len(b) // SAMPLE_AT[name]], selftest=b[cand[len(cand) // 2]] if cand else None,
+               nontrivial=core.nontrivial_count(b, NONTRIVIAL) if name != 'top' else 0)
+    del nodes, edges, b
+    out['res'] = harness(harness_args(mode, d) + ['-in', f])
+    return out
+
+
+def behaviour(name, i):
+    """behaviour number i of a family, from its file"""
+    with open(beh_file[name]) as fh:
+        for k, line in enumerate(fh):
+            if k == i:
+                x = json.loads(line)
+                if x.get('id') != i:
+                    c.inconclusive('internal: behaviour file of family %s is not indexed by line' % name)
+                return x['states']
+    c.inconclusive('internal: behaviour %d of family %s not found' % (i, name))
 
 
 # the three named deviations of the pinned code: with each switched on TLC must find the counterexample (this shows the
@@ -191,8 +222,18 @@ def quirk(q):
 # ---- 3. int64 extremes: metamorphic, outside the bounded TLC domain ----
 nx = 3000 if c.quick else 30000
 
-with cf.ThreadPoolExecutor(10) as ex:
-    fut_fam = [ex.submit(explore, n) for n in FAMILIES]
+beh_file = {}
+
+
+def drop_files():
+    for f in beh_file.values():
+        if os.path.exists(f):
+            os.remove(f)
+
+
+atexit.register(drop_files)
+with cf.ProcessPoolExecutor(len(FAMILIES), mp_context=multiprocessing.get_context('fork')) as px, cf.ThreadPoolExecutor(8) as ex:
+    fut_fam = [px.submit(explore, n) for n in FAMILIES]
     fut_q = [ex.submit(quirk, q) for q in ('MeanFloorsAtOne', 'ScalarShardZero', 'ConcatGroupKey') + ORD_QUIRKS]
     fut_x = ex.submit(harness, ['-mode', 'extremes', '-n', str(nx), '-maxrep', '2'], 900)
     fam_out = [f.result() for f in fut_fam]
@@ -200,16 +241,21 @@ with cf.ThreadPoolExecutor(10) as ex:
     xres = fut_x.result()
 
 states = transitions = 0
-behs, tlc_stats, results, args_of, all_viol, quirks = {}, {}, {}, {}, [], {}
-for name, r, d, b, res, err in fam_out:
-    if err:
-        c.inconclusive(err)
+tlc_stats, results, args_of, all_viol, quirks, sample_of, selftest_of, nontriv = {}, {}, {}, [], {}, {}, {}, 0
+for o in fam_out:
+    if o.get('file'):
+        beh_file[o['name']] = o['file']
+for o in fam_out:
+    name, d, res = o['name'], o['d'], o.get('res')
+    if o['err']:
+        c.inconclusive(o['err'])
     if res.get('inconclusive'):
         c.inconclusive('; '.join(res['inconclusive'][:3]))
-    behs[name], results[name], args_of[name] = b, res, harness_args(fam[name][0], d)
-    states += r.distinct
-    transitions += r.generated
-    tlc_stats[name] = dict(distinct=r.distinct, generated=r.generated, depth=r.depth, wall_s=round(r.wall, 1), behaviours=len(b),
+    results[name], args_of[name], sample_of[name], selftest_of[name] = res, harness_args(fam[name][0], d), o['sample'], o['selftest']
+    nontriv += o['nontrivial']
+    states += o['tlc']['distinct']
+    transitions += o['tlc']['generated']
+    tlc_stats[name] = dict(o['tlc'], behaviours=o['behaviours'],
                            constants={k: d[k] for k in ('Vals', 'Shards', 'K1', 'K2', 'MaxRows', 'MaxRep', 'TopVals', 'MaxItems', 'MaxN', 'Pages')})
     c.log('replayed %s: %d behaviours, %d states compared, %d mismatches %s' % (
         name, res['behaviours'], res['stats'].get('states_compared', 0), res['stats'].get('violations_total', 0),
@@ -238,7 +284,7 @@ for name, v in all_viol:
         replay = {'mode': 'extremes', 'n': nx, 'case': v['behaviour'], 'harness': 'c10'}
     else:
         # the prefix is only re-applied, the failing state carries its expectation
-        full = copy.deepcopy(behs[name][v['behaviour']][: v['step'] + 1])
+        full = behaviour(name, v['behaviour'])[: v['step'] + 1]
         if 'obs' not in full[-1]:
             c.inconclusive('internal: violation reported on a state without expectation')
         f2 = c.write_behaviours('repro', [full])
@@ -254,8 +300,9 @@ for name, v in all_viol:
 selftest = {}
 for name, path, mut in (('scalar', ('obs', 'sres', 'r', 0), 1), ('group', ('obs', 'gparts', 0, 'p', 2, 0), 1), ('top', ('obs', 0, 'vals', 0), 1),
                         ('ord', ('obs', 'bys', 0, 'groups', 0, 'res', 'r', 0), 1)):
-    cand = [b for b in behs[name] if len(b) >= 3 and 'obs' in b[-1]]
-    b = copy.deepcopy(cand[len(cand) // 2])
+    if selftest_of[name] is None:
+        c.inconclusive('binding self-test: family %s has no behaviour of 2 steps' % name)
+    b = copy.deepcopy(selftest_of[name])
     x = b[-1]
     for k in path[:-1]:
         x = x[k]
@@ -273,13 +320,7 @@ for name, res in list(results.items()) + [('extremes', xres)]:
     for k, v in res['stats'].items():
         if not k.startswith('sig:'):
             stats[k] = stats.get(k, 0) + v
-nontriv = core.nontrivial_count(
-    behs['scalar'] + behs['group'] + behs['ord'],
-    lambda st: len({s['last'].get('s') for s in st[1:]}) >= 2 and len({s['last'].get('v') for s in st[1:]}) >= 2)
-sample_s = behs['scalar'][len(behs['scalar']) // 2]
-sample_g = behs['group'][len(behs['group']) // 3]
-sample_t = behs['top'][len(behs['top']) // 2]
-sample_o = behs['ord'][len(behs['ord']) // 3]
+sample_s, sample_g, sample_t, sample_o = (sample_of[n] for n in ('scalar', 'group', 'top', 'ord'))
 # non-vacuity of family "ord", measured by the harness: the plans really executed
 ordc = {k: v for k, v in stats.items() if k.startswith('ord_')}
 ord_cov = dict(
@@ -304,7 +345,7 @@ c.cov.update(
     behaviours_replayed=sum(r['behaviours'] for r in results.values()), steps_replayed=sum(r['steps'] for r in results.values()),
     states_compared=stats.get('states_compared', 0), exhaustive=True,
     evaluations=stats.get('states_compared', 0) + stats.get('extreme_cases', 0), distinct_nontrivial=nontriv,
-    rule='every state of the four TLC state graphs (trees: one behaviour per leaf, every state compared once) is rebuilt on the real code; '
+    rule='every state of the %d TLC state graphs (trees: one behaviour per leaf, every state compared once) is rebuilt on the real code; ' % len(FAMILIES) +
          'non-trivial = rows in at least two shards with at least two distinct values; distinct by full state sequence',
     tlc=tlc_stats, harness_stats=stats, family_ord=ord_cov, extreme_cases=stats.get('extreme_cases', 0),
     spec_deviation_counterexamples=quirks, binding_selftest_rejected=all(selftest.values()), binding_selftest=selftest,
@@ -322,6 +363,8 @@ c.assumptions += [
     'float64: only integral values (exactly representable sums); the float mean is the correctly rounded quotient',
     'family "ord": the position of a series in the series-index answer (index.OrderByTypeSeries) is taken to be its creation order (first arrival); '
     'time order is arrival order; a data node plans the request it is sent unchanged (limit and offset included), as measureInternalQueryProcessor.Rev does',
+    'family "ord": the data nodes run the row plan (the stand-in execution context is not vectorized-capable, as with the flag off); '
+    'per state and client page COUNT plus one seeded other function, and %s of the %d rankings the spec lists, are executed' % ('%d seeded' % ORD_RANKS if ORD_RANKS else 'all', 2 * int(fam['ord'][1]['MaxN'])),
     'a client page (limit, offset) over groups without ranking: any PageSize distinct groups are accepted, each must carry the reference value over all its rows',
     'group keys are concretised adversarially (a|bc vs ab|c); 64-bit hash collisions of group keys are not searched for',
     'TLC bounds: %s' % json.dumps({k: v['constants'] for k, v in tlc_stats.items()}),
